@@ -68,6 +68,8 @@ var transSpecs = []transSpec{
 	{"lrucache/capacity/capacityLRUCache.go", "capacityLRU", "addNew", "lruBytesAfterAdd", "effect:c.currentCapacityInBytes"},
 	{"lrucache/capacity/capacityLRUCache.go", "capacityLRU", "removeElement", "lruBytesAfterRemove", "effect:c.currentCapacityInBytes"},
 	{"lrucache/capacity/capacityLRUCache.go", "capacityLRU", "adjustSize", "lruBytesAfterResize", "effect:c.currentCapacityInBytes"},
+	{"txcache/txListForSender.go", "txListForSender", "onAddedTransaction", "senderBytesAfterAdd", "effect:listForSender.totalBytes"},
+	{"txcache/txListForSender.go", "txListForSender", "onRemovedListElement", "senderBytesAfterRemove", "effect:listForSender.totalBytes"},
 	{"immunitycache/chunk.go", "immunityChunk", "trackNumBytesOnAddNoLock", "chunkBytesAfterAdd", "effect:chunk.numBytes"},
 	{"immunitycache/chunk.go", "immunityChunk", "trackNumBytesOnRemoveNoLock", "chunkBytesAfterRemove", "effect:chunk.numBytes"},
 	{"leveldb/leveldb.go", "DB", "updateBatchWithIncrement", "dbNoFlushNeeded", "firstif"},
@@ -769,6 +771,16 @@ func translateOne(repo string, sp transSpec) (def string, err string) {
 				if sel, ok := call.Fun.(*ast.SelectorExpr); ok {
 					if id, ok := sel.X.(*ast.Ident); ok && id.Name == recv {
 						return "", "calls a method of the receiver: " + t.src(x)
+					}
+					// atomic counters (`core/atomic.Counter`): x.Add(e) / x.Subtract(e) are x += e / x -= e
+					if (sel.Sel.Name == "Add" || sel.Sel.Name == "Subtract") && len(call.Args) == 1 && t.src(sel.X) == target {
+						cur, _ := t.expr(sel.X, "Int")
+						r, _ := t.expr(call.Args[0], "Int")
+						op := "+"
+						if sel.Sel.Name == "Subtract" {
+							op = "-"
+						}
+						t.env[target] = "(" + cur + " " + op + " " + r + ")"
 					}
 				}
 			case *ast.IfStmt:
